@@ -70,15 +70,21 @@ theorem tryFromTemplateImpl_keeps {s s' : State} {t : Template} (buf : Bytes) (t
     · cases h'
     · rename_i g1 g2
       cases h'
-      refine ⟨?_, rfl, rfl, rfl, rfl, rfl, rfl, rfl⟩
-      intro c hc p ls hn
-      refine nameAt_frame (lo := 0) hn (fun _ hx => hx) (fun _ _ => Nat.zero_le _) ?_ (Nat.le_refl _)
-      intro i _ hi
-      have := writeAt_get_in buf 0 (List.take s.cursor s.octets.toList) i (by simp; omega) (by simp; omega)
-      simp only [Nat.zero_add] at this
-      simp only [Array.toList_extract, List.extract_eq_take_drop, Nat.sub_zero, List.drop_zero]
-      rw [this, List.getElem?_take]
-      simp [show i < s.cursor by omega]
+      have hpre : ∀ i, i < s.cursor →
+          (writeAt buf 0 (s.octets.extract 0 s.cursor).toList)[i]? = s.octets[i]? := by
+        intro i hi
+        have := writeAt_get_in buf 0 (List.take s.cursor s.octets.toList) i (by simp; omega) (by simp; omega)
+        simp only [Nat.zero_add] at this
+        simp only [Array.toList_extract, List.extract_eq_take_drop, Nat.sub_zero, List.drop_zero]
+        rw [this, List.getElem?_take]
+        simp [show i < s.cursor by omega]
+      refine ⟨?_, rfl, rfl, rfl, rfl, rfl, rfl, rfl, ?_⟩
+      · intro c hc p ls hn
+        exact nameAt_frame (lo := 0) hn (fun _ hx => hx) (fun _ _ => Nat.zero_le _)
+          (fun i _ hi => hpre i (by omega)) (Nat.le_refl _)
+      · intro g ⟨ls, hn, hb⟩
+        exact ⟨ls, nameAtC_frame (lo := 0) hn (fun _ hx => hx) (fun _ _ => Nat.zero_le _)
+          (fun i _ hi => hpre i hi) (Nat.le_refl _), hb⟩
 
 theorem tryFromTemplateImpl_tsig {s' : State} {t : Template} (buf : Bytes) (ts : Option Tsig)
     (h' : tryFromTemplateImpl buf t ts = .ok s') : s'.tsig = ts := by
